@@ -87,7 +87,7 @@ MANIFEST_ENTRY = {
             "code by generated histories (k<=6 outstanding requests of mixed kinds, all reply permutations for k<=4, "
             "success/error/progressive/duplicate/unknown-id/wrong-type/wrong-kind replies, all payload shapes, interleaved "
             "EVENT traffic, send failures, cancels, explicit loop iterations) on both frameworks.",
-    "note": "Trusted: Lean kernel; the hand-written model (checked only by the differential run); txaio/Deferred/Future "
+    "note": "The object form register(obj) (one REGISTER per decorated endpoint, each with exactly its own options, ids, REGISTERED routing, INVOCATION arguments) is decided on the real code only (harness part B), not modelled. Trusted: Lean kernel; the hand-written model (checked only by the differential run); txaio/Deferred/Future "
             "semantics. INVOCATION traffic for live registrations and the session lifecycle are the business of C06/C10 "
             "(same model); here only ProtocolError-raising INVOCATIONs are interleaved. Known finding U5 is reproduced by the "
             "check and listed in known_findings.d/C04.jsonl; F10 and its no-options variant are listed there as fixed "
